@@ -161,6 +161,9 @@ def main(argv):
     for t, fs in REG.funs.items():
         if (fs.trusted or t.startswith("ext:")) and any(t in r.get("calls", []) for r in results):
             trusted.append(f"assumed contract of {t}: requires {fs.requires} ensures {fs.ensures} raises {list(fs.raises)}")
+        elif fs.until and fs.callers is not None and any(t in r.get("calls", []) and r["target"] != t for r in results):
+            trusted.append(f"assumed caller view of {t} (its own contract covers only the prefix before `{fs.until}`): "
+                           f"requires {fs.callers.requires} ensures {fs.callers.ensures} modifies {fs.callers.modifies}")
 
     # ------------------------------------------------------------------ 2. SMT-free contract passes
     for passname in cfg.get("flow", []):
